@@ -21,8 +21,11 @@ N = {"quick": 192, "thorough": 5000}
 FORMATS = ("glyf_colr_1", "glyf_colr_1", "cff_colr_1", "cff2_colr_1")
 
 
+NCLI = {"quick": 12, "thorough": 120}
+
+
 def plan(tier, seed):
-    return [{"id": f"{seed}-{i}", "i": i} for i in range(N[tier])]
+    return [{"id": f"{seed}-{i}", "i": i} for i in range(N[tier])] + [{"id": f"{seed}-cli{i}", "i": 100000 + i, "lane": "cli", "timeout": 900} for i in range(NCLI[tier])]
 
 
 def gen_case(case, formats=FORMATS, prop=ID):
@@ -32,7 +35,21 @@ def gen_case(case, formats=FORMATS, prop=ID):
     srcs = []
     mode = r.random()
     meta = {"mode": None}
-    if mode < 0.45:
+    if mode < 0.22:
+        meta["mode"] = "grid-recurrence"
+        svgs, gcfg, m = svggen.grid_recurrence_set(r, r.randint(2, 3), pal=pal)
+        meta["transforms"] = m["transforms"]
+        for k_, v_ in gcfg.items():
+            cfg[k_] = v_
+        cfg.pop("transform", None)
+        if cfg.get("reuse_tolerance", 0.1) in (-1, 0.0):
+            cfg["reuse_tolerance"] = 0.1
+        srcs.extend(svgs)
+    elif mode < 0.27:
+        meta["mode"] = "twin-gradients"
+        for g in range(r.randint(1, 2)):
+            srcs.append(svggen.twin_gradient_source(r, g)[0])
+    elif mode < 0.45:
         meta["mode"] = "random"
         for g in range(r.randint(1, 4)):
             t, m = svggen.svg_source(r, g, pal, outside=not cfg["clip_to_viewbox"] or r.random() < 0.3)
@@ -84,8 +101,34 @@ def run_case(case):
         return res
     contracts.install()
     contracts.reset()
+    cli_info = None
     try:
-        built = inproc.build(sources, cfg, normalised=norm)
+        if case.get("lane") == "cli":
+            # end-to-end: the real console script, picosvg, ninja and every step process, contracts on inside the steps
+            import shutil
+
+            scratch = common.mkscratch("c01cli-")
+            try:
+                built, cli_info = rc.built_from_cli(sources, cfg, scratch)
+            finally:
+                shutil.rmtree(scratch, ignore_errors=True)
+            res["tags"].append("cli-lane")
+            if built is None:
+                out = cli_info["output"]
+                if any(k in out for k in ("OverflowError", "does not fit in format", "format requires", "doesn't look like a path")):
+                    res["counters"]["build_refused_overflow"] = 1
+                    return res
+                res["violations"].append({"what": f"CLI build failed (exit {cli_info['rc']}) on valid input", "output": out, "config": cfg})
+                return res
+            res["counters"]["cli_builds"] = 1
+            for e in cli_info["contract_events"]:
+                for v in e.get("violations") or []:
+                    v["what"] = f"in CLI step {e['step']}: " + v["what"]
+                    res["violations"].append(v)
+                for k, n in (e.get("counters") or {}).items():
+                    res["counters"]["cli." + k] = res["counters"].get("cli." + k, 0) + n
+        else:
+            built = inproc.build(sources, cfg, normalised=norm)
     except Exception as e:
         if rc.is_overflow_refusal(e):
             # an explicit refusal because a value does not fit the OpenType field is a legal outcome
@@ -116,7 +159,7 @@ def run_case(case):
 def finish(agg):
     c = agg["counters"]
     inc = []
-    for k in ("H1.transformed", "H2.try_reuse", "H2.reuse_hits", "gradient_layers", "groups", "transformed_layers"):
+    for k in ("H1.transformed", "H2.try_reuse", "H2.reuse_hits", "gradient_layers", "groups", "transformed_layers", "H1.PaintTranslate", "H1.PaintScaleAroundCenter", "H1.PaintScaleUniformAroundCenter", "H1.PaintScale"):
         if c.get(k, 0) == 0:
             inc.append(f"deciding monitor/branch never reached: {k}")
     return {"inconclusive": inc}
